@@ -93,7 +93,8 @@ def cases(ctx):
             sc, ec = gen.cfg(rng)
             yield {"mode": "tam", "kind": kind, "pos": pos, "neg": neg, "ep": ep, "en": en, "sc": sc, "ec": ec,
                    "metric": str(rng.choice(["fnr", "fpr", "topr", "tpr", "callable"])), "target": rng.uniform(0, 1, int(rng.integers(1, 4))),
-                   "points": [None, int(rng.integers(2, 30)), "array"][int(rng.integers(0, 3))], "pts": np.sort(rng.normal(0, 2, int(rng.integers(2, 9))))}
+                   "points": [None, int(rng.integers(2, 30)), "array"][int(rng.integers(0, 3))], "pts": np.sort(rng.normal(0, 2, int(rng.integers(2, 9)))),
+                   "history": [round(float(w), 2) for w in rng.uniform(0, 1, int(rng.integers(0, 3)))]}
 
 
 def execute(ctx, case):
@@ -120,6 +121,19 @@ def execute(ctx, case):
     if isinstance(points, np.ndarray) and int(case["pts"].size) % 2:
         points = points.tolist()  # user-supplied points as a plain list
     target = case["target"]
+
+    def weighted(w):  # closures from one factory: different metrics, one __qualname__
+        return lambda obj, thr: w * obj.fnr(thr) + (1 - w) * obj.fpr(thr)
+
+    # a history on one object: earlier searches with other metrics (same grid specification) must not influence a later one
+    seq = [(weighted(w), "callable") for w in case.get("history", [])] + [(m, metric)]
+    for m, metric in seq:
+        _tam_once(sess, case, s, m, metric, points, target)
+    sess.sig_counts[("case", "tam", metric, len(seq))] += 1
+    return True
+
+
+def _tam_once(sess, case, s, m, metric, points, target):
     sess.ipl_calls.clear()
     res = s.threshold_at_metric(target, m, points)  # the inversion itself is judged by M-ipl
     sess.observe("R-tam")
@@ -149,4 +163,3 @@ def execute(ctx, case):
                         "passed_x": call.get("x"), "passed_y": call.get("y")}, sig=sig, key="tam-points")
     sess.check("R-tam", isinstance(res, list) and len(res) == len(target), "threshold_at_metric: one entry per target expected", None, sig=sig, key="tam-len")
     sess.sig_counts[("case", "tam") + sig] += 1
-    return True
